@@ -533,6 +533,11 @@ namespace link_layer {
             if ( static_cast< bool >( header & sn_flag ) != nesn )
             {
                 transmit_buffer_.pop_end( transmit_buffer() );
+
+                // see free_received()
+                if ( transmit_buffer_.next_end().size == 0 )
+                    transmit_buffer_.reset( transmit_buffer() );
+
                 static_cast< Radio* >( this )->increment_transmit_packet_counter();
             }
         }
@@ -558,6 +563,11 @@ namespace link_layer {
         typename Radio::lock_guard lock;
 
         receive_buffer_.pop_end( receive_buffer() );
+
+        // An empty ring that is split somewhere in the middle can not provide a buffer of the maximum PDU size,
+        // if the ring is just large enough for one PDU. An empty ring can be rewound to its start.
+        if ( receive_buffer_.next_end().size == 0 )
+            receive_buffer_.reset( receive_buffer() );
     }
 
     template < std::size_t TransmitSize, std::size_t ReceiveSize, typename Radio >
